@@ -307,9 +307,94 @@ func selfTestUnits(tier string) []Unit {
 
 func init() {
 	Props["SELF"] = &PropMeta{
-		Units:       selfTestUnits,
+		Units:       func(t string) []Unit { return append(pruneSelfTestUnits(t), selfTestUnits(t)...) },
 		Rule:        "self-test (not a property of originium): every script of up to 4 (thorough: 5) file operations from a menu of opens with six flag combinations, write, read, seek, sync, close, truncate, remove, rename, stat and readdir on two names is run on the in-memory file system shim and on the real os in a temporary directory; transcripts (error classes, byte counts, data, listings, final contents) must be identical",
 		Assumptions: []string{"the real file system of the sandbox (ext4/overlay) is the reference"},
 		QuickS:      120, ThoroughS: 900,
 	}
+}
+
+// pruneSelfTest: the partial-order fingerprint pruning must not lose behaviours: for several scenarios and
+// budgets the set of distinct outcomes (observed values and commit results of every transaction) found with
+// pruning must equal the set found without it.
+func pruneSelfTestUnits(tier string) []Unit {
+	var units []Unit
+	scs := txnScenarios()
+	picks := []int{0, 1, 4, 5} // S1, S2, S5, R1
+	cfgs := []struct {
+		n string
+		c dbCfg
+		b int
+	}{{"mem-only", cfgTxnMem, 2}, {"rotate-always", cfgTxnRotate, 1}}
+	if tier == "thorough" {
+		cfgs = []struct {
+			n string
+			c dbCfg
+			b int
+		}{{"mem-only", cfgTxnMem, 3}, {"rotate-always", cfgTxnRotate, 2}}
+	}
+	for _, pi := range picks {
+		for _, cf := range cfgs {
+			sc, cf := scs[pi], cf
+			sc.Cfg = cf.c
+			sc.Keys = txnKeys
+			sc.FreezeEpilogue, sc.NoClose = true, true
+			units = append(units, Unit{Name: fmt.Sprintf("prune-soundness/%s/%s/budget=%d", sc.Name, cf.n, cf.b), Weight: 5, Run: func(c *Ctx) {
+				sets := [2]map[string]bool{{}, {}}
+				execs := [2]int64{}
+				for mode := 0; mode < 2; mode++ {
+					var obs txnObs
+					sub := &Ctx{Prop: c.Prop, Tier: c.Tier}
+					ExploreSched(sub, txnScenario(sc, &obs), SchedOpts{Delay: true, Budgets: []int{cf.b}, MaxEnv: 1, EnvKinds: dbEnvKinds, MaxSteps: 300000,
+						NoCache: mode == 0,
+						Outcome: func() string { k := obs.outcomeKey() + " | " + obs.realTimeKey(); sets[mode][k] = true; return k }})
+					execs[mode] = sub.Res.Executions
+					c.Res.Executions += sub.Res.Executions
+					c.Res.Transitions += sub.Res.Transitions
+					c.Res.States += sub.Res.States
+					c.Res.Evaluations += sub.Res.Evaluations
+				}
+				for k := range sets[0] {
+					if !sets[1][k] {
+						c.Violation("selftest/pruning-lost-an-outcome", fmt.Sprintf("%s: outcome found without pruning (%d executions) but not with pruning (%d executions): %s", sc.Name, execs[0], execs[1], k), nil, nil)
+						break
+					}
+				}
+				for k := range sets[1] {
+					if !sets[0][k] {
+						c.Violation("selftest/pruning-invented-an-outcome", fmt.Sprintf("%s: outcome found only with pruning: %s", sc.Name, k), nil, nil)
+						break
+					}
+				}
+				c.NT(fmt.Sprintf("%s %s %d outcomes", sc.Name, cf.n, len(sets[0])))
+				c.Sample(map[string]any{"scenario": sc.Name, "config": cf.n, "budget": cf.b, "outcomes": len(sets[0]), "executions_unpruned": execs[0], "executions_pruned": execs[1]})
+			}})
+		}
+	}
+	return units
+}
+
+// realTimeKey: the real-time relations between transactions that the history oracles look at.
+func (o *txnObs) realTimeKey() string {
+	var b strings.Builder
+	for _, a := range o.hist.txns {
+		for _, t := range o.hist.txns {
+			if a == t {
+				continue
+			}
+			switch {
+			case a.EndRet < t.BeginCall:
+				b.WriteString("<")
+			case a.EndCall > t.BeginRet:
+				b.WriteString(">")
+			default:
+				b.WriteString("~")
+			}
+			if a.EndRet < t.EndCall {
+				b.WriteString("c")
+			}
+		}
+		b.WriteString(";")
+	}
+	return b.String()
 }
